@@ -1077,7 +1077,7 @@ func (s *Snapshot) findRoots() int {
 		// Initializes RemoteGOROOT.
 		const src = "/src"
 		if s.RemoteGOROOT == "" {
-			if r := isRootedIn(s.LocalGOROOT+src, parts); r != "" {
+			if r := isRootedIn(s.LocalGOROOT+src, parts); strings.HasSuffix(r, src) {
 				s.RemoteGOROOT = r[:len(r)-len(src)]
 				//log.Printf("Found RemoteGOROOT=%s", s.RemoteGOROOT)
 				continue
@@ -1086,14 +1086,14 @@ func (s *Snapshot) findRoots() int {
 		// Initializes RemoteGOPATHs.
 		found := false
 		for _, l := range s.LocalGOPATHs {
-			if r := isRootedIn(l+src, parts); r != "" {
+			if r := isRootedIn(l+src, parts); strings.HasSuffix(r, src) {
 				//log.Printf("Found RemoteGOPATHs[%s] = %s", r[:len(r)-len(src)], l)
 				s.RemoteGOPATHs[r[:len(r)-len(src)]] = l
 				found = true
 				break
 			}
 			const pkgmod = "/pkg/mod"
-			if r := isRootedIn(l+pkgmod, parts); r != "" {
+			if r := isRootedIn(l+pkgmod, parts); strings.HasSuffix(r, pkgmod) {
 				//log.Printf("Found RemoteGOPATHs[%s] = %s", r[:len(r)-len(pkgmod)], l)
 				s.RemoteGOPATHs[r[:len(r)-len(pkgmod)]] = l
 				found = true
